@@ -40,7 +40,8 @@ CONSTANTS N,        \* slots of the pool
           MaxSess,  \* sessions ever created
           MaxRpc,   \* calls
           InLock,   \* listener invoked inside the table lock (the code) / outside (vacuity variant)
-          MaxWedged \* sessions whose peer answers pings but never accepts a stream: alive and registered, session.Open hangs
+          MaxWedged, \* sessions whose peer answers pings but never accepts a stream: alive and registered, session.Open hangs
+          AllowReset \* the environment may reset the gRPC transport (one yamux stream) of a live session
 
 Id == 1..MaxSess
 Rpc == 1..MaxRpc
@@ -104,6 +105,15 @@ Connect(k) == /\ k \in eps /\ sub[k] \in {"none", "failed"}
               /\ UNCHANGED <<sstate, wedged, table, ver, pending, connMap, eps, updated, rpc, at, sawEmpty, killedOn>>
 Notice(k) == /\ sub[k] = "ready" /\ sstate[k] # "live" /\ sub' = [sub EXCEPT ![k] = "failed"]
              /\ UNCHANGED <<sstate, wedged, table, ver, pending, connMap, eps, updated, rpc, at, sawEmpty, killedOn>>
+\* The peer loses / recycles the gRPC transport of session k (GOAWAY, stream reset, keepalive): ONE yamux stream is
+\* closed, the session stays alive and registered. Calls in flight on it fail; gRPC re-dials the same endpoint
+\* (Connect) and getMapDialer has to hand out a fresh stream of the same session: usable = registered and alive,
+\* however often the endpoint was dialed.
+Reset(k) == /\ AllowReset /\ sub[k] = "ready" /\ sstate[k] = "live"
+            /\ sub' = [sub EXCEPT ![k] = "none"]
+            /\ rpc' = [r \in Rpc |-> IF rpc[r] = "on" /\ at[r] = k THEN "unavail" ELSE rpc[r]]
+            /\ killedOn' = [r \in Rpc |-> killedOn[r] \/ (rpc[r] = "on" /\ at[r] = k)]
+            /\ UNCHANGED <<sstate, wedged, table, ver, pending, connMap, eps, updated, at, sawEmpty>>
 
 \* calls are issued only after the first UpdateState (before it gRPC waits for the resolver)
 RpcStart(r) == /\ rpc[r] = "idle" /\ updated /\ rpc' = [rpc EXCEPT ![r] = "pick"]
@@ -122,7 +132,7 @@ RpcDone(r) == /\ rpc[r] = "on"
 
 Internal == (\E k \in Id : Unreg(k) \/ Connect(k) \/ Notice(k)) \/ (\E p \in pending : Apply(p))
             \/ (\E r \in Rpc : RpcFailFast(r) \/ \E k \in Id : RpcPick(r, k))
-Env == Add \/ (\E k \in Id : Kill(k)) \/ (\E r \in Rpc : RpcStart(r) \/ RpcDone(r))
+Env == Add \/ (\E k \in Id : Kill(k) \/ Reset(k)) \/ (\E r \in Rpc : RpcStart(r) \/ RpcDone(r))
 Next == Internal \/ Env
 Spec == Init /\ [][Next]_vars
 
